@@ -29,6 +29,9 @@ type Object interface {
 	Probe() map[string]interface{}
 	// ProbeDrain: Len() followed by Pop until it fails, by the harness goroutine.
 	ProbeDrain() map[string]interface{}
+	// WhiteBox says whether Describe can name variables (false: the step labels of the
+	// Impl spec are not compared, only observations).
+	WhiteBox() bool
 	// ResetEvent describes the initial state for the history.
 	ResetEvent() map[string]interface{}
 }
@@ -132,6 +135,9 @@ func (a *Adapter) Apply(op core.Op) (interface{}, error) {
 		p := a.obj.Probe()
 		p["ev"] = "probe"
 		a.hist = append(a.hist, p)
+	}
+	if !a.obj.WhiteBox() {
+		return op.R, nil // black box: step labels cannot be named, only observations are compared
 	}
 	return ops, nil
 }
